@@ -1,9 +1,10 @@
-import SqlProofs.DelimR.Trig
+import SqlProofs.DelimChild.Reindent.Trig
 /-!
-# SqlProofs.DelimR.AdHoc — the loop passes stay in front of a protected suffix (`Ops`)
+# SqlProofs.DelimChild.Reindent.AdHoc — the loop passes stay in front of a protected suffix (`Ops`)
 -/
 namespace Sql
-namespace DC
+namespace DCR
+open DC
 
 variable {u : Text → Text}
 
@@ -255,5 +256,5 @@ theorem orderLoop_ops {S : List Node} (hS : ∀ y ∈ S, imt u y [] [] Gen.group
             exact step.trans (ih _ _ _ h F1 hk1 (fun t2 tok2 hq => pend_of_nextBy _ _ hq))
         · exact ih _ _ _ h F hk (fun t2 tok2 hq => pend_of_nextBy _ _ hq)
 
-end DC
+end DCR
 end Sql
